@@ -10,6 +10,12 @@ LAB = "./internal/zzverif/lab"
 H2 = "./internal/martian/h2"
 
 CHECKS = {
+    "C19": {
+        "binaries": ["forwarder"],
+        "runs": [
+            R(LAB, "^TestC19Secrets", {"checks": 30, "timeout": 900}, {"checks": 150, "shards": 8, "timeout": 3000}),
+        ],
+    },
     "C20": {
         "runs": [
             R(LAB, "^TestC20Limits", {"checks": 16, "timeout": 900}, {"checks": 100, "shards": 4, "timeout": 3000}),
@@ -121,6 +127,9 @@ CHECKS = {
 LEVELS = {"C12": "fault_enumeration"}  # default: exploration
 
 RULES = {
+    "C19": "the real binary (built from the working tree) is started per case with a generated configuration: form flags / FORWARDER_* environment / YAML config file; log level error/info/debug; log-http none/short-url/url/errors; text or JSON log; stdout or --log-file; --basic-auth, --api-basic-auth, --proxy with userinfo, up to three --credentials entries (exact host:port, host:*, *:*), and inline data: URIs for --tls-cert-file/--tls-key-file, --mitm-cacert-file/--mitm-cakey-file, --cacert-file. "
+           "Passwords are built from a recognisable stem plus up to four fragments with URL-special characters (% : / ? # [ ] + & = space quotes backslash non-ASCII %41 %% <> |, minus the few each flag's own syntax forbids). The harness performs an authenticated exchange (through the upstream proxy and with site credentials where configured), provokes a 407 and (outside log-http=errors) a 502, fetches /configz with and without credentials, stops the process, and scans stdout, stderr, log file, /configz bodies and all replies for every secret: literally, query/path/userinfo/JSON-escaped, base64(secret), base64(user:secret); key material as PEM body and as data: payload. User names must remain visible in /configz. "
+           "Non-trivial = a secret containing characters that need escaping, or at least two secret-bearing flags. Distinct = distinct configurations.",
     "C20": "a fresh proxy per case (full token bucket) with generated --read-limit / --write-limit pairs: none, only the other direction (64 KiB/s, so low that applied to the wrong direction the transfer would need > 16 s), this direction at 1/2/4 MiB/s with or without the other; 1-3 concurrent connections sharing the listener; download or upload, as plain request or through a CONNECT tunnel; total volume = 4 MiB burst + 300/500/800 ms worth of the rate. "
            "Oracle: arrival timeline of the transferred bytes (download: at the client; upload: at a scripted origin, because kernel buffers hide what the proxy has accepted) merged over all connections - at every sample cumulative bytes <= burst + rate x elapsed + 64 KiB per connection, elapsed measured from before the first connection (exact, no tolerance); a direction without limit must finish within 8 s (retried twice); every byte is a fixed function of (connection, offset) and is verified. "
            "Non-trivial = some limit configured. Distinct = distinct cases.",
@@ -192,6 +201,9 @@ RULES = {
 }
 
 ASSUMPTIONS = {
+    "C19": ["configurations the binary rejects are outside the domain (its usage error echoes the offending argument); they are counted as class 'config-rejected'",
+            "log-http modes headers and body, and the request log of failed (>= 500) exchanges in 'errors' mode, are excluded by the statement",
+            "Kerberos flags are not exercised"],
     "C20": ["only upper bounds on throughput (lower bounds on duration) are decidable from outside; fairness between connections is not claimed",
             "burst size 4 MiB is the documented default for rates below 256 MiB/s"],
     "C15": ["upper bounds are bounded-liveness with generous slack and a retry-3 rule; lower bounds are exact because the harness clock is read before the proxy can have started its timer",
@@ -257,6 +269,11 @@ ASSUMPTIONS = {
 # MANIFEST texts
 
 META = {
+    "C19": {
+        "technique": "property-based testing (rapid) against the real binary: generated secret strings x configuration forms x log settings; oracle = absence of every secret in every encoding from all diagnostic channels after exchanges that use those credentials",
+        "text": "Each case starts the binary, drives exchanges that exercise every configured credential, and greps everything the process emitted or returned for the secrets in seven encodings. 30 processes quick, 1200 thorough. Verified against three redaction mutants.",
+        "note": "About 0.3 s per case (process start).",
+    },
     "C20": {
         "technique": "property-based testing (rapid) over limit pairs, directions, tunnel/plain and 1-3 sharing connections; metamorphic data check (throttled = unthrottled bytes) and an exact token-bucket upper bound on the observed arrival timeline",
         "text": "Each case measures the arrival timeline of a transfer that exceeds the burst and checks the token-bucket bound at every sample over all connections of the listener, that the opposite limit does not slow it, and that the data is unaltered. 16 cases quick, 400 thorough. Verified against: swapped direction mapping, limiter per connection, missing wait, doubled burst.",
